@@ -312,9 +312,150 @@ class Normaliser:
     # ------------------------------------------------------------------ statements
     def _block(self, stmts: List[ast.stmt], fd: ast.FunctionDef) -> List[ast.stmt]:
         out: List[ast.stmt] = []
-        for st in stmts:
+        i = 0
+        stmts = list(stmts)
+        while i < len(stmts):
+            st = stmts[i]
+            dd = self._dict_dispatch(stmts, i, out, fd)
+            if dd is not None:
+                out.extend(self._block(dd, fd))
+                return out
             out.extend(self._stmt(st, fd))
+            i += 1
         return out
+
+    def _dict_literal(self, e: ast.AST, prior: List[ast.stmt], fd: ast.FunctionDef) -> Optional[ast.Dict]:
+        if isinstance(e, ast.Dict):
+            d = e
+        elif isinstance(e, ast.Name):
+            binds = [s_ for s_ in prior if isinstance(s_, (ast.Assign, ast.AnnAssign)) and isinstance((s_.targets[0] if isinstance(s_, ast.Assign) else s_.target), ast.Name)
+                     and (s_.targets[0] if isinstance(s_, ast.Assign) else s_.target).id == e.id]
+            if len(binds) != 1 or not isinstance(binds[0].value, ast.Dict):
+                if (None, e.id) in self.consts and isinstance(self.consts[(None, e.id)], ast.Dict) and e.id not in self._locals(fd):
+                    d = self.consts[(None, e.id)]
+                else:
+                    return None
+            else:
+                d = binds[0].value
+                # bound once in the whole function and never written through
+                n_store = sum(1 for n in _walk_local(fd) if isinstance(n, ast.Name) and n.id == e.id and isinstance(n.ctx, ast.Store))
+                if n_store != 1 or e.id in self._written_roots_fn(fd):
+                    return None
+        else:
+            return None
+        if not d.keys or len(d.keys) > 16 or not all(isinstance(k, ast.Constant) for k in d.keys) or not all(_simple(v) for v in d.values):
+            return None
+        return d
+
+    def _written_roots_fn(self, fd: ast.FunctionDef) -> Set[str]:
+        out: Set[str] = set()
+        for n in _walk_local(fd):
+            tg = []
+            if isinstance(n, ast.Assign):
+                tg = n.targets
+            elif isinstance(n, (ast.AugAssign,)):
+                tg = [n.target]
+            elif isinstance(n, ast.Call) and isinstance(n.func, ast.Attribute) and n.func.attr in ("update", "setdefault", "pop", "popitem", "clear", "__setitem__"):
+                tg = [n.func]
+            for t in tg:
+                root, sub = t, False
+                while isinstance(root, (ast.Attribute, ast.Subscript)):
+                    root, sub = root.value, True
+                if isinstance(root, ast.Name) and sub:
+                    out.add(root.id)
+        return out
+
+    def _dict_dispatch(self, stmts: List[ast.stmt], i: int, prior: List[ast.stmt], fd: ast.FunctionDef) -> Optional[List[ast.stmt]]:
+        """`T = D.get(K)` / `T = D[K]` with D a dict literal of constant keys, followed by the rest of the block:
+        rewritten as  if K == k1: <rest with T := v1> elif ... else: <rest with T := None | raise KeyError(K)>."""
+        st = stmts[i]
+        if not (isinstance(st, (ast.Assign, ast.AnnAssign)) and st.value is not None):
+            return None
+        tgt = st.targets[0] if isinstance(st, ast.Assign) and len(st.targets) == 1 else (st.target if isinstance(st, ast.AnnAssign) else None)
+        if not isinstance(tgt, ast.Name):
+            return None
+        v = st.value
+        key, dexpr, has_default = None, None, False
+        if isinstance(v, ast.Call) and isinstance(v.func, ast.Attribute) and v.func.attr == "get" and len(v.args) == 1 and not v.keywords:
+            key, dexpr, has_default = v.args[0], v.func.value, True
+        elif isinstance(v, ast.Subscript) and isinstance(v.ctx, ast.Load):
+            key, dexpr = v.slice, v.value
+        if key is None or not _simple(key) or isinstance(key, ast.Constant):
+            return None
+        d = self._dict_literal(dexpr, prior, fd)
+        if d is None:
+            return None
+        rest = stmts[i + 1:]
+        if not rest or len(rest) > 12:
+            return None
+        # T must not be rebound later
+        if sum(1 for n in _walk_local(fd) if isinstance(n, ast.Name) and n.id == tgt.id and isinstance(n.ctx, ast.Store)) != 1:
+            return None
+        # the rest must end the block's control flow (so that duplicating it is the whole continuation)
+        if not isinstance(rest[-1], (ast.Return, ast.Raise)):
+            return None
+        chain: Optional[ast.If] = None
+        branches = []
+        for k, val in zip(d.keys, d.values):
+            body = [_Rename({tgt.id: val}, {}).visit(copy.deepcopy(s_)) for s_ in rest]
+            branches.append((ast.Compare(left=copy.deepcopy(key), ops=[ast.Eq()], comparators=[copy.deepcopy(k)]), body))
+        if has_default:
+            tail = [_Rename({tgt.id: ast.Constant(value=None)}, {}).visit(copy.deepcopy(s_)) for s_ in rest]
+        else:
+            tail = [ast.Raise(exc=ast.Call(func=ast.Name(id="KeyError", ctx=ast.Load()), args=[copy.deepcopy(key)], keywords=[]), cause=None)]
+        node = None
+        for test, body in reversed(branches):
+            node = ast.If(test=test, body=body, orelse=([node] if node is not None else tail))
+        for n in ast.walk(node):
+            if not hasattr(n, "lineno"):
+                ast.copy_location(n, st)
+        ast.fix_missing_locations(node)
+        self.notes.append("dict dispatch on %s turned into an if-chain in %s" % (ast.unparse(key), fd.name))
+        return [self._fold(node)]
+
+    def _fold(self, node: ast.AST) -> ast.AST:
+        """constant-fold `X is None` / `X is not None` for X a lambda, a method/function reference or a constant,
+        and prune `if True/False` made by it"""
+        class F(ast.NodeTransformer):
+            def visit_Compare(self, n):
+                self.generic_visit(n)
+                if len(n.ops) == 1 and isinstance(n.ops[0], (ast.Is, ast.IsNot)) and isinstance(n.comparators[0], ast.Constant) and n.comparators[0].value is None:
+                    l = n.left
+                    val = None
+                    if isinstance(l, ast.Constant):
+                        val = l.value is None
+                    elif isinstance(l, (ast.Lambda, ast.Attribute)):
+                        val = False
+                    if val is not None:
+                        return ast.copy_location(ast.Constant(value=(val if isinstance(n.ops[0], ast.Is) else not val)), n)
+                return n
+
+            def visit_If(self, n):
+                self.generic_visit(n)
+                return n
+        node = F().visit(node)
+
+        def prune(stmts):
+            out = []
+            for s_ in stmts:
+                for fld in ("body", "orelse", "finalbody"):
+                    b = getattr(s_, fld, None)
+                    if isinstance(b, list) and b and isinstance(b[0], ast.stmt):
+                        setattr(s_, fld, prune(b))
+                if isinstance(s_, ast.If) and isinstance(s_.test, ast.Constant) and isinstance(s_.test.value, bool):
+                    out.extend(s_.body if s_.test.value else s_.orelse)
+                    if (s_.body if s_.test.value else s_.orelse) and isinstance((s_.body if s_.test.value else s_.orelse)[-1], (ast.Return, ast.Raise)):
+                        break
+                else:
+                    out.append(s_)
+                    if isinstance(s_, (ast.Return, ast.Raise)):
+                        break
+            return out or [ast.Pass()]
+        if isinstance(node, ast.If):
+            wrapper = ast.Module(body=[node], type_ignores=[])
+            wrapper.body = prune(wrapper.body)
+            return wrapper.body[0] if len(wrapper.body) == 1 else ast.If(test=ast.Constant(value=True), body=wrapper.body, orelse=[])
+        return node
 
     def _stmt(self, st: ast.stmt, fd: ast.FunctionDef) -> List[ast.stmt]:
         if isinstance(st, (ast.FunctionDef, ast.AsyncFunctionDef, ast.ClassDef)):
@@ -617,6 +758,17 @@ class Normaliser:
     # ------------------------------------------------------------------ N3
     def _unroll(self, st: ast.For, fd: ast.FunctionDef) -> Optional[List[ast.stmt]]:
         it = st.iter
+        if isinstance(it, ast.Call) and isinstance(it.func, ast.Attribute) and it.func.attr in ("items", "keys", "values") and not it.args and isinstance(it.func.value, ast.Dict) \
+                and all(k is not None for k in it.func.value.keys):
+            d = it.func.value
+            if it.func.attr == "items":
+                it = ast.Tuple(elts=[ast.Tuple(elts=[k, v], ctx=ast.Load()) for k, v in zip(d.keys, d.values)], ctx=ast.Load())
+            elif it.func.attr == "keys":
+                it = ast.Tuple(elts=list(d.keys), ctx=ast.Load())
+            else:
+                it = ast.Tuple(elts=list(d.values), ctx=ast.Load())
+        elif isinstance(it, ast.Dict) and all(k is not None for k in it.keys):
+            it = ast.Tuple(elts=list(it.keys), ctx=ast.Load())
         if not isinstance(it, (ast.Tuple, ast.List)) or not it.elts or len(it.elts) > MAX_UNROLL:
             return None
         tgt = st.target
